@@ -8,7 +8,8 @@ streams, further sends, a second fault, the "error the rest from another thread"
 Layer S (vt/c10sched.py): the failure runs on a reactor thread (optionally a second thread closes the
 connection at the same time) while client threads take a stream id and call send_msg; every schedule with
 at most one preemption, scheduling points at every source line of defunct / close / error_all_requests /
-send_msg / process_msg.
+send_msg / process_msg.  Second family: the reactor thread processes the response of an outstanding request
+(process_msg) while another thread runs defunct() / close(); every schedule with at most two preemptions.
 """
 from vt.core import Part, HarnessError
 from vt import explore, connlib
@@ -17,7 +18,8 @@ META = {
     'level': 'model_checking',
     'engine': 'E+S',
     'technique': 'explicit-state BFS over request/response/fault histories on the real Connection, canonical-state dedup, '
-                 'plus stateless preemption-bounded schedule exploration of the failure (reactor thread) against concurrent send_msg calls (client threads)',
+                 'plus stateless preemption-bounded schedule exploration of the failure (reactor thread) against concurrent send_msg calls (client threads) '
+                 'and of a response being processed on the reactor thread against defunct() / close() on another thread',
     'text': 'Programs of up to 4 requests on a handshaken connection (send_msg with callbacks as the pools do, the callback either '
             'returning or raising whatever it is handed (plainx: a user errback / retry hook that blows up); HeartbeatFuture; '
             'a continuous-paging session created by the first page as ResponseFuture does; one blocking wait_for_response whose '
@@ -38,10 +40,20 @@ META = {
             'error_all_cp_sessions, send_msg, process_msg and the reactor close().  Oracle per execution: a send that starts when '
             'is_defunct or is_closed is already set is refused with ConnectionShutdown; every request whose send_msg returned '
             'normally, before or during the failure, has its callback invoked exactly once with a connection error; the callback '
-            'of a refused send is never invoked; no handler stays registered; no deadlock.',
+            'of a refused send is never invoked; no handler stays registered; no deadlock.  '
+            'Response family: 2-3 requests outstanding, the reactor thread reads the RESULT frame of one of them (thorough: two in a row; '
+            'handler returning / raising) and runs process_msg while another thread calls defunct(OSError) or close() (or two threads one each; '
+            'inline and threshold 2; one variant with a racing send_msg; thorough: the reactor then reads an undecodable / ProtocolError '
+            'frame while a thread closes); all schedules with <= 2 preemptions (1 with three threads) at the same '
+            'scheduling points, i.e. the failing thread stopped between any two lines of defunct / close / error_all_requests while the '
+            'reactor is stopped between any two lines of process_msg.  Oracle: every outstanding handler is invoked exactly once; the '
+            'request whose response is being processed gets either that response or a connection error (never both, never neither), the '
+            'others a connection error; no handler stays registered.',
     'note': 'Layer E: single-threaded interleavings.  Layer S: preemption granularity is the source line in the named functions and the '
             'virtual primitive elsewhere; "started after the mark" is read by the client thread immediately before the call (no '
-            'scheduling point in between).  An undecodable frame on the stream of a handler that raises is left out (process_msg hands '
+            'scheduling point in between).  Response family: the request whose response the reactor is processing counts as completed by '
+            'whichever of the response / the connection error reaches its handler (the statement\'s "exactly once" is what is judged); '
+            'interleavings inside one source line (e.g. between loading self._requests and calling pop on it) are not explored.  An undecodable frame on the stream of a handler that raises is left out (process_msg hands '
             'the decode error to the handler before defunct(); where the handler\'s exception goes is reactor-specific).  VConnection.close() is the '
             'contract common to the shipped reactors.  The continuous-paging glue (create the session on the first page) copies '
             'ResponseFuture._handle_continuous_paging_first_response.  The stream whose own frame is undecodable / a ProtocolError '
@@ -520,6 +532,8 @@ def run(ctx):
     ctx.assume('an undecodable frame on the stream of a handler that raises is not generated: process_msg hands the decode error to the '
                'handler before it calls defunct(), the handler\'s exception leaves process_msg and what the reactor does with it is '
                'reactor-specific (the connection may not become defunct at all, which the statement does not cover)')
+    ctx.assume('schedule layer, response family: the frame being processed is a complete, decodable RESULT for an outstanding stream; the failure '
+               'comes from a thread other than the reactor (heartbeat failure, pool / cluster shutdown, a writer reporting a socket error)')
     ctx.assume('schedule layer: one reactor thread; preemption only at the scheduling points named in META; a racing send counts as '
                '"started after the failure" when is_defunct / is_closed was set immediately before the call')
     ctx.assume('a late frame is delivered by writing to _iobuf and calling process_io_buffer(), i.e. the reactor had read the bytes before the '
